@@ -71,6 +71,26 @@ def affine(e, what):
 
 E = r"([A-Za-z0-9+\-]+)"          # an offset expression without parentheses
 
+# equivalent spellings of one threshold test are accepted: nbytes >= K, nbytes > K-1,
+# K <= nbytes, K-1 < nbytes (optionally parenthesised); likewise i + K <= nbytes, nbytes >= i + K
+GE_NBYTES = r"\(?(?:nbytes>=(?P<ge_a>\d+)|nbytes>(?P<ge_b>\d+)|(?P<ge_c>\d+)<=nbytes|(?P<ge_d>\d+)<nbytes)\)?"
+I_PLUS_LE = r"\(?(?:i\+(?P<ip_a>\d+)<=nbytes|nbytes>=i\+(?P<ip_b>\d+)|(?P<ip_c>\d+)\+i<=nbytes|nbytes-i>=(?P<ip_d>\d+))\)?"
+
+
+def ge_value(m):
+    g = m.groupdict()
+    if g.get("ge_a") is not None: return int(g["ge_a"])
+    if g.get("ge_b") is not None: return int(g["ge_b"]) + 1
+    if g.get("ge_c") is not None: return int(g["ge_c"])
+    return int(g["ge_d"]) + 1
+
+
+def ip_value(m):
+    g = m.groupdict()
+    for k in ("ip_a", "ip_b", "ip_c", "ip_d"):
+        if g.get(k) is not None:
+            return int(g[k])
+
 
 def between(src, clr):
     name = "MEMCLR_BETWEEN_N_AND_2N_BYTES" if clr else "MEMCPY_BETWEEN_N_AND_2N_BYTES"
@@ -108,14 +128,14 @@ def ladder(src, fn, clr, fixed):
     rest, out = m.group(2), []
     first = True
     while rest:
-        m = re.match(r"^%sif\(nbytes>=(\d+)\)%s\((\d+),([01]),%s\);(.*)$" % ("" if first else "else", mac, args), rest)
+        m = re.match(r"^%sif\(%s\)\{?%s\((?P<N>\d+),(?P<fw>[01]),%s\);\}?(?P<rest>.*)$" % ("" if first else "else", GE_NBYTES, mac, args), rest)
         if not m:
             raise Shape(fn + ": size-class ladder not recognised at " + rest[:60])
-        T, N, fw = int(m.group(1)), int(m.group(2)), int(m.group(3))
+        T, N, fw = ge_value(m), int(m.group("N")), int(m.group("fw"))
         if fw != (1 if fixed else 0):
             raise Shape(fn + ": fixedwidth flag %d" % fw)
         out.append((T, N, bool(fw)))
-        rest = m.group(4)
+        rest = m.group("rest")
         first = False
     return out
 
@@ -158,18 +178,19 @@ def gte16_var(src, fn, clr):
     call = (r"%s\(\(void\*\)\(\(char\*\)dst\+i\),(\d+)\);" % callee) if clr else \
            (r"%s\(\(void\*\)\(\(char\*\)dst\+i\),\(constvoid\*\)\(\(constchar\*\)src\+i\),(\d+)\);" % callee)
     head = r"^size_ti=0;constintrinreg16zero=\{0\};assert\(nbytes>=(\d+)\);" if clr else r"^size_ti=0;intrinreg16tail;assert\(nbytes>=(\d+)\);"
-    m = re.match(head + r"while\(i\+(\d+)<=nbytes\)\{" + call + r"i\+=(\d+);\}(.*)$", b)
+    call_l = call.replace("(\\d+)", "(?P<lc>\\d+)")
+    m = re.match(head.replace("(\\d+)", "(?P<lo>\\d+)") + r"while\(" + I_PLUS_LE + r"\)\{" + call_l + r"i\+=(?P<ld>\d+);\}(?P<rest>.*)$", b)
     if not m:
         raise Shape(fn + ": loop not recognised")
-    lo, a, c, d, rest = int(m.group(1)), int(m.group(2)), int(m.group(3)), int(m.group(4)), m.group(5)
+    lo, a, c, d, rest = int(m.group("lo")), ip_value(m), int(m.group("lc")), int(m.group("ld")), m.group("rest")
     if not (a == c == d):
         raise Shape(fn + ": loop constants disagree")
     steps = []
     while True:
-        m = re.match(r"^if\(i\+(\d+)<=nbytes\)\{" + call + r"(i\+=(\d+);)?\}(.*)$", rest)
+        m = re.match(r"^if\(" + I_PLUS_LE + r"\)\{" + call_l + r"(?P<adv>i\+=(?P<k3>\d+);)?\}(?P<rest>.*)$", rest)
         if not m:
             break
-        k, k2, adv, k3, rest = int(m.group(1)), int(m.group(2)), m.group(3), m.group(4), m.group(5)
+        k, k2, adv, k3, rest = ip_value(m), int(m.group("lc")), m.group("adv"), m.group("k3"), m.group("rest")
         if k != k2 or (adv and int(k3) != k):
             raise Shape(fn + ": step constants disagree")
         steps.append((k, bool(adv)))
@@ -185,10 +206,14 @@ def gte16_var(src, fn, clr):
 def top(src, fn, hi, lo_fn, clr):
     b = body_of(src, fn)
     args = r"dst,nbytes" if clr else r"dst,src,nbytes"
-    m = re.match(r"^if\(nbytes>=(\d+)\)%s\(%s\);else%s\(%s\);$" % (hi, args, lo_fn, args), b)
+    m = re.match(r"^if\(%s\)\{?%s\(%s\);\}?else\{?%s\(%s\);\}?$" % (GE_NBYTES, hi, args, lo_fn, args), b)
     if not m:
-        raise Shape(fn + " body does not match the template")
-    return int(m.group(1))
+        # the same split written the other way round: if (nbytes < K) lte32 else gte16
+        m2 = re.match(r"^if\(\(?(?:nbytes<(?P<lt>\d+)|nbytes<=(?P<le>\d+))\)?\)\{?%s\(%s\);\}?else\{?%s\(%s\);\}?$" % (lo_fn, args, hi, args), b)
+        if not m2:
+            raise Shape(fn + " body does not match the template")
+        return int(m2.group("lt")) if m2.group("lt") is not None else int(m2.group("le")) + 1
+    return ge_value(m)
 
 
 def parse(repo):
